@@ -728,6 +728,18 @@ def inject(ctx):
                 fs = op['text']
     # the name: the base function's own name, replaced by `<base field>_<own name>` exactly when the own name is already taken —
     # decided per function (nothing carried over from the previous function of the loop)
+    def _is_rename(de):
+        return any(isinstance(x, tuple) and x and x[0] == 'call' and (x[1].endswith('fmt::format') or (
+            re.search(r'slice::<impl \[T\]>::(join|concat)$', x[1]) and len(x[2]) == 2 and strip(x[2][1]) == ('str', '_'))) for x in walk(de))
+
+    def _rename_pieces(de):
+        # format!("{}_{}", a, b): the Display arguments; [a, b].join("_"): the array elements
+        for x in walk(de):
+            if isinstance(x, tuple) and x and x[0] == 'call' and re.search(r'slice::<impl \[T\]>::join$', x[1]) and len(x[2]) == 2 and strip(x[2][1]) == ('str', '_'):
+                arr = strip(x[2][0])
+                if arr[0] == 'array':
+                    return [strip(y) for y in arr[1]]
+        return [strip(x[2][0]) for x in walk(de) if isinstance(x, tuple) and x and x[0] == 'call' and re.search(r"Argument(::<[^>]*>)?::new_display$", x[1])]
     okren, detren = False, 'pushed value not read'
     try:
         from mirlib import _edge_conds
@@ -747,8 +759,8 @@ def inject(ctx):
                     if key_ not in seen_rows:
                         seen_rows.add(key_)
                         flat.append((cc_, expand(cf, v2_)))
-            overs = [(('rows', cs_), v_) for cs_, v_ in flat if any(isinstance(x, tuple) and x and x[0] == 'call' and x[1].endswith('fmt::format') for x in walk(v_))]
-            bases2 = [1 for cs_, v_ in flat if not any(isinstance(x, tuple) and x and x[0] == 'call' and x[1].endswith('fmt::format') for x in walk(v_))]
+            overs = [(('rows', cs_), v_) for cs_, v_ in flat if _is_rename(v_)]
+            bases2 = [1 for cs_, v_ in flat if not _is_rename(v_)]
             nv_ = ('rows',)
         found = nv_[0] == 'rows'
         if nv_[0] == 'var':
@@ -757,7 +769,7 @@ def inject(ctx):
             overs, bases2 = [], []
             for dd in dsn:
                 de = cf.expr_of_def(dd)
-                (overs if any(isinstance(x, tuple) and x and x[0] == 'call' and x[1].endswith('fmt::format') for x in walk(de)) else bases2).append((dd, de))
+                (overs if _is_rename(expand(cf, de)) else bases2).append((dd, expand(cf, de)))
             if not overs:
                 # `std::mem::replace(&mut function.name, prefixed)`: the new name is stored through the reference
                 for c_ in cf.calls(lambda r: r['path'] and re.search(r'mem::(replace|swap)$', r['path'])):
@@ -769,7 +781,7 @@ def inject(ctx):
             dd, de = overs[0]
             conds = dd[1] if dd[0] == 'rows' else [(c_, l_) for b_, c_, l_ in _edge_conds(cf, dd[0])]
             cond_ok = len(conds) == 1 and conds[0][1] is True and is_call(strip(conds[0][0]), 'contains')
-            disp = [strip(x[2][0]) for x in walk(de) if isinstance(x, tuple) and x and x[0] == 'call' and re.search(r"Argument(::<[^>]*>)?::new_display$", x[1])]
+            disp = _rename_pieces(de)
 
             def own_name(a):
                 a = strip(expand(cf, a))
@@ -788,6 +800,8 @@ def inject(ctx):
         detren = 'not understood: %r' % (e_,)
     ctx.ob(['C07'], 'R-SLP', 'C07|rename-only-on-clash', okren,
            'an injected function keeps its own name unless that name is already taken, and then becomes `<base field>_<own name>` — decided for this function alone: %s' % detren, loc(cf.span))
+    if fs is None and any(re.search(r'slice::<impl \[T\]>::join$', c_['path'] or '') and strip(cf.expr_of_operand(c_['term']['args'][1])) == ('str', '_') for c_ in cf.calls()):
+        fs = '[base, name].join("_")'
     ctx.ob(['C07', 'C04'], 'R-SLP', 'C07|forwarding-body', okb and len(ren) == 1 and fs is not None,
            'an injected function forwards to field <base field>.<original name>; on a name clash it is renamed `<base>_<name>` (format %s)' % fs, loc(cf.span))
     # everything else (visibility, docs, arguments, return type, convention) is the base function's own: the pushed value is a
